@@ -23,7 +23,9 @@ EXTENDS Prims, TLC
 \* ---------------------------------------------------------------- the group
 Member(G, a) == a > 0 /\ a < G.p /\ PowM(a, G.q, G.p) = 1
 Elems(G) == {a \in 1..(G.p - 1) : PowM(a, G.q, G.p) = 1}
-IsSchnorr(G) == /\ IsPrime(G.p) /\ IsPrime(G.q) /\ (G.p - 1) % G.q = 0
+\* primality by trial division, exact for n <= 46337 = the largest modulus whose products fit TLC's integers
+SmallPrime(n) == n > 1 /\ n <= 46337 /\ \A d \in 2..215 : (d < n /\ d * d <= n) => (n % d # 0)
+IsSchnorr(G) == /\ SmallPrime(G.p) /\ SmallPrime(G.q) /\ (G.p - 1) % G.q = 0
                 /\ G.g # 1 /\ Member(G, G.g)
 Zq(G) == 0..(G.q - 1)
 Gen(G, e) == PowM(G.g, e % G.q, G.p)                      \* g^e, any integer e
@@ -86,8 +88,9 @@ SS(var, N, sc) == [i \in 1..N |-> IF var = "two" THEN sc[2 * i] ELSE sc[2 * i - 
 SR(var, N, sc) == [i \in 1..N |-> IF var = "two" THEN sc[2 * i - 1] ELSE sc[2 * i]]
 QueryOf(pr, cc) == Query(pr.G, pr.var, pr.N, pr.sigma, CA(cc), CB(cc), CC(pr.var, pr.N, cc))
 AnswerOf(pr, Q, sc) == Answer(pr.G, pr.var, pr.N, Q, pr.M, SS(pr.var, pr.N, sc), SR(pr.var, pr.N, sc))
-EffCOf(pr, cc, i) == EffC(pr.G, pr.var, pr.sigma, CA(cc), CB(cc), CC(pr.var, pr.N, cc), i)
-Collides(pr, cc) == \E i, j \in 1..pr.N : i < j /\ EffCOf(pr, cc, i) = EffCOf(pr, cc, j)
+\* the exponents hidden in an honest chooser's query elements
+EffVec(pr, cc) == LET c == CC(pr.var, pr.N, cc) IN [i \in 1..pr.N |-> EffC(pr.G, pr.var, pr.sigma, CA(cc), CB(cc), c, i)]
+Collides(pr, cc) == LET ev == EffVec(pr, cc) IN \E i, j \in 1..pr.N : i < j /\ ev[i] = ev[j]
 Flat(A) == [k \in 1..(2 * Len(A)) |-> A[(k + 1) \div 2][2 - (k % 2)]]      \* w_0, e_0, w_1, e_1, ...
 
 \* ------------------------------------------------- malformed first moves (C05 catalogue)
